@@ -24,19 +24,25 @@ NO_FLOOD = W.OFPPC_NO_FLOOD
 
 
 class VTimer (object):
-  """Stand-in for recoco.Timer inside discovery / spanning_tree: records itself, never fires by itself."""
+  """Stand-in for recoco.Timer inside discovery / spanning_tree: records itself and when it is due on the virtual
+  clock; it fires only when the harness' event loop (HWorld.run_for) gets to it."""
   live = []
+  clock = None
+  seq = 0
   def __init__ (self, timeToWake, callback, absoluteTime=False, recurring=False, args=(), kw={}, scheduler=None,
                 started=True, selfStoppable=True):
     self.interval = timeToWake; self.callback = callback; self.recurring = recurring
     self.args = args; self.kw = kw; self.cancelled = False
+    now = VTimer.clock.now if VTimer.clock is not None else 0.0
+    self.due = timeToWake if absoluteTime else now + timeToWake
+    VTimer.seq += 1; self.seq = VTimer.seq
     VTimer.live.append(self)
   def cancel (self): self.cancelled = True
   def fire (self):
     if not self.cancelled: return self.callback(*self.args, **self.kw)
 
 
-def controller_components (clock, link_events):
+def controller_components (clock, link_events, link_timeout=None):
   """Fresh real Discovery + spanning tree wired to the current nexus (core.openflow)."""
   from mc.env import boot
   core = boot()
@@ -46,8 +52,8 @@ def controller_components (clock, link_events):
   ST.Timer = VTimer; ST.time = clock
   ST._prev.clear(); ST._dirty_switches.clear()
   ST._noflood_by_default = False; ST._hold_down = False
-  VTimer.live = []
-  disc = D.Discovery()
+  VTimer.live = []; VTimer.clock = clock; VTimer.seq = 0
+  disc = D.Discovery(link_timeout=link_timeout) if link_timeout else D.Discovery()
   core.components["openflow_discovery"] = disc
   core.openflow.addListenerByName("ConnectionUp", ST._handle_ConnectionUp)
   disc.addListenerByName("LinkEvent", ST._handle_LinkEvent)
@@ -225,11 +231,14 @@ class HWorld (object):
   def __init__ (self, topo):
     from mc.netsim import Net
     from mc.env import VClock
+    # "triangle@3": the same topology with Discovery(link_timeout=3)
+    topo, _, lt = topo.partition("@")
+    self.link_timeout = float(lt) if lt else None
     self.nports, self.links = TOPOS[topo]
     self.clock = VClock(9000.0)
     self.link_events = []
     def comps (net):
-      self.D, self.ST, self.disc = controller_components(self.clock, self.link_events)
+      self.D, self.ST, self.disc = controller_components(self.clock, self.link_events, self.link_timeout)
     self.net = Net(self.nports, [], clock=self.clock, max_buffers=8, components=comps)
     self.up = dict((i, "up") for i in range(len(self.links)))        # physical link state: up | down | ab | ba (one-way)
     self.connected = dict((i, True) for i in range(len(self.nports)))
@@ -256,26 +265,30 @@ class HWorld (object):
       self.net.sw[i].feed(W.flow_mod(77, W.match_fields(dl_dst=BCAST), W.OFPFC_ADD, W.a_output(W.OFPP_FLOOD), priority=10))
     self.net.pump()
 
-  def send_cycle (self):
-    s = self.disc._sender
-    n = len(s._this_cycle) + len(s._next_cycle)
-    for _ in range(n):
-      s._timer_handler()
+  def run_for (self, seconds):
+    """Discrete-event loop over the components' timers (probe sender, link expiry, spanning tree's delayed port
+    checks) on the virtual clock: the earliest due timer fires, the network is pumped, repeat."""
+    end = self.clock.now + seconds
+    fired = 0
+    while True:
+      VTimer.live = [t for t in VTimer.live if not t.cancelled]
+      if not VTimer.live: break
+      t = min(VTimer.live, key=lambda t: (t.due, t.seq))
+      if t.due > end: break
+      if t.due > self.clock.now: self.clock.advance(t.due - self.clock.now)
+      if t.recurring: t.due += t.interval
+      else: t.cancelled = True
+      if t.callback(*t.args, **t.kw) is False and t.recurring: t.cancelled = True
       self.net.pump()
+      fired += 1
+      if fired > 5000: raise RuntimeError("timer storm: more than 5000 timer firings in %s virtual seconds" % seconds)
+    if end > self.clock.now: self.clock.advance(end - self.clock.now)
 
   def settle (self):
-    """Let discovery converge: three send cycles 4 s apart (live links are refreshed, dead ones age past the
-    10 s link timeout), an expiry check, pending port checks, one more cycle."""
-    for k in range(3):
-      self.clock.advance(4.0)
-      self.send_cycle()
-    self.disc._expire_links()
-    self.net.pump()
-    for t in list(VTimer.live):
-      if t.callback is self.ST._check_ports and not t.cancelled:
-        t.cancelled = True; t.fire()
-    self.net.pump()
-    self.send_cycle()
+    """Let discovery converge: long enough for dead links to age past the link timeout and be noticed by the next
+    expiry check, for the spanning tree's delayed port checks, and for one more probe cycle."""
+    lt = self.disc._link_timeout
+    self.run_for(2 * lt + self.disc._timeout_check_period + self.disc.send_cycle_time + 1)
 
   def ops (self):
     o = []
@@ -331,6 +344,10 @@ class HWorld (object):
       extra = sorted(adj - phys); missing = sorted(phys - adj)
       self.fail("adjacency:%s" % ("stale-link-kept" if extra else "link-not-discovered"),
                 "discovered adjacency differs from the physical links: not withdrawn %r, not discovered %r" % (extra, missing))
+    # 1b. nothing physical changed while settling: a link that is physically there must not be withdrawn
+    for added, l in self.link_events[n0:]:
+      if not added and l in phys:
+        self.fail("events:healthy-link-withdrawn", "link %r was announced removed although it is physically up" % (l,)); break
     # 2. LinkEvent stream alternates per link, starting with added
     state = {}
     for added, l in self.link_events:
@@ -402,8 +419,9 @@ def _h_worker (items):
 
 def h_items (quick):
   items = []
-  for topo, depth in (("triangle", 3 if quick else 4), ("square+diag", 2 if quick else 3)):
-    nl = len(TOPOS[topo][1]); ns = len(TOPOS[topo][0])
+  for topo, depth in (("triangle", 3 if quick else 4), ("square+diag", 2 if quick else 3), ("triangle@3", 2 if quick else 3)):
+    base = topo.partition("@")[0]
+    nl = len(TOPOS[base][1]); ns = len(TOPOS[base][0])
     alpha = [(st, i) for i in range(nl) for st in ("down", "up", "ab", "ba")] + \
             [("disc", i) for i in range(ns)] + [("conn", i) for i in range(ns)]
     for d in range(0, depth + 1):
@@ -498,7 +516,8 @@ def run (cfg):
   rep.rule = ("G: every multigraph on 2-4 switches (thorough: 5 with a 4-element pair alphabet) where each unordered pair is one of "
               "%r, dpids in and against sorted order, run through the real _calc_spanning_tree/_update_tree; own flood simulation over "
               "the physical links. H: every enabled sequence of <=%d events {a link goes down / up / one-way in either direction, switch disconnect/connect} on a triangle and a "
-              "square with a diagonal in netsim with real LLDP probes and the real FLOOD action. P: probe encode->decode for dpids with "
+              "square with a diagonal (and the triangle again with Discovery(link_timeout=3)) in netsim with real LLDP probes and the real FLOOD action; "
+              "after every event the components' own timers (probe sender, link expiry, delayed port checks) run on the virtual clock for two link timeouts plus a check period. P: probe encode->decode for dpids with "
               "bytes in {0,1,0x80,0xff} x ports (1,2,9,10,255,256,12337,0xfeff). distinct = (part, observation, verdict)"
               % (list(PAIR_QUICK), 3 if cfg.quick else 4))
   rep.bound = dict(graph_switches=4 if cfg.quick else 5, history_depth=dict(triangle=3 if cfg.quick else 4, square_diag=2 if cfg.quick else 3))
